@@ -33,7 +33,10 @@ EXTENDS Linearize
 
 CONSTANTS Threads,      \* e.g. 1..2
           MaxCalls,     \* calls per thread
-          MaxInitEdges  \* edges of the initial graph
+          MaxInitEdges, \* edges of the initial graph (rotational: base edges, each added with its rotations)
+          Rotational    \* TRUE: rotationally symmetric scenarios (thread t runs thread 1's call with every
+                        \* operand rotated t-1 times, initial edges come with their rotations): the shape
+                        \* of lock-order cycles through all nodes, at a fraction of the scenarios
 
 VARIABLES prog,     \* [Threads -> Seq(call)] : call = <<name, args..>>
           ci,       \* [Threads -> index of the current call]
@@ -63,17 +66,35 @@ LInit == /\ out = Empty /\ inn = Empty /\ phase = "init"
          /\ poisoned = {} /\ g0 = [out |-> Empty, inn |-> Empty]
 
 \* ---- scenario: initial graph, then the programs ----
-BuildInit == /\ phase = "init" /\ TotalEdges(out) < MaxInitEdges
-             /\ \E u \in Nodes, v \in Nodes, e \in Vals :
-                   LET r == ConnectOutcome(out, inn, u, v, e) IN out' = r.out /\ inn' = r.inn
+NN == Cardinality(Nodes)
+Rot(n) == (n % NN) + 1
+RECURSIVE RotK(_, _)
+RotK(n, k) == IF k = 0 THEN n ELSE RotK(Rot(n), k - 1)
+RotCall(c, k) == IF Len(c) = 4 THEN <<c[1], RotK(c[2], k), RotK(c[3], k), c[4]>>
+                 ELSE IF Len(c) = 3 THEN <<c[1], RotK(c[2], k), RotK(c[3], k)>>
+                 ELSE <<c[1], RotK(c[2], k)>>
+RECURSIVE AddRotated(_, _, _, _, _)
+AddRotated(o, i, u, v, k) ==
+  IF k = NN THEN [out |-> o, inn |-> i]
+  ELSE LET r == ConnectOutcome(o, i, RotK(u, k), RotK(v, k), 1) IN AddRotated(r.out, r.inn, u, v, k + 1)
+
+BuildInit == /\ phase = "init"
+             /\ IF Rotational
+                THEN /\ TotalEdges(out) < MaxInitEdges * NN
+                     /\ \E u \in Nodes, v \in Nodes :
+                           LET r == AddRotated(out, inn, u, v, 0) IN out' = r.out /\ inn' = r.inn
+                ELSE /\ TotalEdges(out) < MaxInitEdges
+                     /\ \E u \in Nodes, v \in Nodes, e \in Vals :
+                           LET r == ConnectOutcome(out, inn, u, v, e) IN out' = r.out /\ inn' = r.inn
              /\ UNCHANGED lvars
 
 \* programs are chosen in a canonical order of threads (thread ids are
 \* interchangeable): thread t's first call is not "smaller" than thread t+1's
 CallSeqs == UNION {[1..n -> Calls] : n \in 1..MaxCalls}
 Pick == /\ phase = "init"
-        /\ \E p \in [Threads -> CallSeqs] :
-              /\ prog' = p
+        /\ IF Rotational
+           THEN \E c \in Calls : prog' = [t \in Threads |-> <<RotCall(c, t - 1)>>]
+           ELSE \E p \in [Threads -> CallSeqs] : prog' = p
         /\ phase' = "run" /\ g0' = [out |-> out, inn |-> inn]
         /\ UNCHANGED <<out, inn, ci, pc, reg, rets, status, poisoned>>
 
